@@ -150,7 +150,7 @@ Record trules (W : world) (H : list vote) : Prop := mkTR {
         (exists h, cast H s (KNotar h) u = true /\ notar_cert W H (s, h) = true) /\
         cast H s KSkip u = false /\ cast H s KSkipFb u = false /\ (forall h, cast H s (KNotarFb h) u = false);
   tr4 : forall s h u, correct W u = true -> cast H s (KNotarFb h) u = true ->
-        s2n_stake W H (s, h) = true /\ exists p, w_parent W (s, h) = Some p /\ nf_cert W H p = true;
+        s2n_stake W H (s, h) = true /\ exists p, w_parent W (s, h) = Some p /\ (nf_cert W H p = true \/ p = genesis);
   tr5 : forall s u, correct W u = true -> cast H s KSkipFb u = true -> s2s_stake W H s;
   tr6b : forall s h u, correct W u = true -> cast H s (KNotar h) u = true -> s <> window_first s ->
         exists h', w_parent W (s, h) = Some (s - 1, h') /\ (cast H (s - 1) (KNotar h') u = true \/ (s - 1, h') = genesis)
@@ -285,7 +285,8 @@ Proof.
   - (* tr4 *)
     intros s h u C F. apply cast_in in F. destruct (rule_of W H _ K F C) as [o [Io [R _]]].
     destruct R as [_ R]. cbn [v_slot v_kind v_signer] in R. destruct R as [_ [S2 [_ [p [Pp Pc]]]]].
-    split; [eapply s2n_stake_mono; eassumption|]. exists p. split; [exact Pp | eapply nf_cert_mono; eassumption].
+    split; [eapply s2n_stake_mono; eassumption|]. exists p. split; [exact Pp|].
+    destruct Pc as [Pc|Pc]; [left; eapply nf_cert_mono; eassumption | right; exact Pc].
   - (* tr5 *)
     intros s u C F. apply cast_in in F. destruct (rule_of W H _ K F C) as [o [Io [R _]]].
     destruct R as [_ R]. cbn [v_slot v_kind v_signer] in R. destruct R as [_ [_ S2]].
@@ -599,7 +600,7 @@ Proof.
 Qed.
 
 Lemma step_nfb d : correct_nfb W H d -> fst d <> window_first (fst d) ->
-  exists h', w_parent W d = Some (fst d - 1, h') /\ nf_cert W H (fst d - 1, h') = true.
+  exists h', w_parent W d = Some (fst d - 1, h') /\ (nf_cert W H (fst d - 1, h') = true \/ (fst d - 1, h') = genesis).
 Proof.
   intros [u [C E]] Hw. destruct d as [s h]. cbn [fst snd] in *.
   destruct (tr4 W H TR _ _ _ C E) as [S2 [p [Pp Pc]]].
@@ -628,7 +629,8 @@ Proof.
       * rewrite Es in Pp, S'.
         assert (h' = hb). { eapply strong_notar_vs_cert; [exact TR | exact S' |]. apply finalized_notar; assumption. }
         subst h'. eapply ae_step; [exact Pp|]. apply ae_refl.
-    + destruct (step_nfb _ Nf Hw) as [h' [Pp Pc]]; cbn [fst snd] in *.
+    + destruct (step_nfb _ Nf Hw) as [h' [Pp [Pc|G]]]; cbn [fst snd] in *;
+        [|exfalso; unfold genesis in G; injection G as G _; nlia].
       rewrite Es in Pp, Pc.
       assert (X : (sb, h') = (sb, hb)) by (apply (cert_in_fin_slot W H WO TR (sb, hb) _ F Pc); reflexivity).
       injection X as ->. eapply ae_step; [exact Pp|]. apply ae_refl.
@@ -641,7 +643,8 @@ Proof.
     + destruct (step_strong _ S Hw) as [h' [Pp [G|S']]]; cbn [fst snd] in *.
       * exfalso. unfold genesis in G. injection G as G _. nlia.
       * eapply ae_step; [exact Pp|]. apply IH; cbn [fst snd]; [exact Ed' | rewrite Wp; exact Hwin | left; exact S'].
-    + destruct (step_nfb _ Nf Hw) as [h' [Pp Pc]]; cbn [fst snd] in *.
+    + destruct (step_nfb _ Nf Hw) as [h' [Pp [Pc|G]]]; cbn [fst snd] in *;
+        [|exfalso; unfold genesis in G; injection G as G _; nlia].
       eapply ae_step; [exact Pp|]. apply IH; cbn [fst snd]; [exact Ed' | rewrite Wp; exact Hwin | right; exact Pc].
 Qed.
 
